@@ -723,6 +723,11 @@ func (st *state) applyDefaults(instancep reflect.Value, schema *Schema) (err err
 		// If we unmarshalled into 'any', the default object unmarshalling will be map[string]any.
 		instance = instance.Elem()
 	}
+	if instance.Kind() == reflect.Map && instance.IsNil() {
+		// A nil map is a JSON null rather than an object (for instance the null default
+		// of a property whose Go type is a map): there is nothing to add defaults to.
+		return nil
+	}
 	if instance.Kind() == reflect.Map || instance.Kind() == reflect.Struct {
 		if instance.Kind() == reflect.Map {
 			if kt := instance.Type().Key(); kt.Kind() != reflect.String {
